@@ -77,10 +77,27 @@ pub enum Shape {
     BlocksB2b,
     /// `encrypt_blocks_inout(InOutBuf)` — in == out or disjoint
     BlocksInout,
+    /// the way block modes drive a cipher: `encrypt_with_backend(closure)`, the closure calls
+    /// `backend.encrypt_block_inplace` on each of the n blocks — in place
+    BackendBlockInplace,
+    /// closure: `encrypt_par_blocks_inplace` on every full batch, `encrypt_tail_blocks_inplace` on the rest — in place
+    BackendBlocksInplace,
+    /// closure: `encrypt_par_blocks(InOut)` on every full batch, `encrypt_tail_blocks(InOutBuf)` on the rest —
+    /// in == out or disjoint
+    BackendBlocksInout,
 }
 
-pub const SHAPES: [Shape; 6] =
-    [Shape::Block, Shape::BlockB2b, Shape::BlockInout, Shape::Blocks, Shape::BlocksB2b, Shape::BlocksInout];
+pub const SHAPES: [Shape; 9] = [
+    Shape::Block,
+    Shape::BlockB2b,
+    Shape::BlockInout,
+    Shape::Blocks,
+    Shape::BlocksB2b,
+    Shape::BlocksInout,
+    Shape::BackendBlockInplace,
+    Shape::BackendBlocksInplace,
+    Shape::BackendBlocksInout,
+];
 
 impl Shape {
     pub fn name(self) -> &'static str {
@@ -91,6 +108,9 @@ impl Shape {
             Shape::Blocks => "blocks",
             Shape::BlocksB2b => "blocks_b2b",
             Shape::BlocksInout => "blocks_inout",
+            Shape::BackendBlockInplace => "backend_block_inplace",
+            Shape::BackendBlocksInplace => "backend_blocks_inplace",
+            Shape::BackendBlocksInout => "backend_blocks_inout",
         }
     }
     pub fn parse(s: &str) -> Option<Shape> {
@@ -101,7 +121,7 @@ impl Shape {
     }
     /// must in and out coincide?
     pub fn in_place_only(self) -> bool {
-        matches!(self, Shape::Block | Shape::Blocks)
+        matches!(self, Shape::Block | Shape::Blocks | Shape::BackendBlockInplace | Shape::BackendBlocksInplace)
     }
     /// must in and out be disjoint?
     pub fn disjoint_only(self) -> bool {
@@ -143,6 +163,9 @@ pub struct TypeInfo {
     pub clone: Option<CloneFn>,
     pub clone_from: Option<CloneFromFn>,
     pub drop: DropFn,
+    /// move the live value out of the slot into a `Box` and drop the box (the storage dies with the drop, so
+    /// the optimiser may treat the wipe's stores as dead unless they are volatile)
+    pub box_drop: DropFn,
     pub enc: Option<CallFn>,
     pub dec: Option<CallFn>,
     pub enc_par: Option<ParFn>,
@@ -257,6 +280,13 @@ pub unsafe fn g_drop<T>(slot: *mut u8) {
     unsafe { ptr::drop_in_place(slot as *mut T) }
 }
 
+pub unsafe fn g_box_drop<T>(slot: *mut u8) {
+    // the box escapes once (so the allocation itself cannot be optimised away), then dies here
+    let mut b: Box<T> = Box::new(unsafe { ptr::read(slot as *const T) });
+    core::hint::black_box(&mut *b as *mut T);
+    drop(b);
+}
+
 pub unsafe fn g_enc<T: BlockCipherEncrypt>(this: *const u8, shape: Shape, inp: *const u8, outp: *mut u8, n: usize) {
     unsafe {
         let c = &*(this as *const T);
@@ -271,6 +301,9 @@ pub unsafe fn g_enc<T: BlockCipherEncrypt>(this: *const u8, shape: Shape, inp: *
                 .encrypt_blocks_b2b(slice::from_raw_parts(ib, n), slice::from_raw_parts_mut(ob, n))
                 .expect("equal lengths"),
             Shape::BlocksInout => c.encrypt_blocks_inout(InOutBuf::from_raw(ib, ob, n)),
+            Shape::BackendBlockInplace | Shape::BackendBlocksInplace | Shape::BackendBlocksInout => {
+                c.encrypt_with_backend(BackendRun::<T::BlockSize> { mode: shape, inp, outp, n, _p: PhantomData })
+            }
         }
     }
 }
@@ -289,9 +322,67 @@ pub unsafe fn g_dec<T: BlockCipherDecrypt>(this: *const u8, shape: Shape, inp: *
                 .decrypt_blocks_b2b(slice::from_raw_parts(ib, n), slice::from_raw_parts_mut(ob, n))
                 .expect("equal lengths"),
             Shape::BlocksInout => c.decrypt_blocks_inout(InOutBuf::from_raw(ib, ob, n)),
+            Shape::BackendBlockInplace | Shape::BackendBlocksInplace | Shape::BackendBlocksInout => {
+                c.decrypt_with_backend(BackendRun::<T::BlockSize> { mode: shape, inp, outp, n, _p: PhantomData })
+            }
         }
     }
 }
+
+/// A caller that drives the backend itself, as block-mode crates do (rank-2 closure passed to `*_with_backend`).
+struct BackendRun<BS> {
+    mode: Shape,
+    inp: *const u8,
+    outp: *mut u8,
+    n: usize,
+    _p: PhantomData<BS>,
+}
+
+impl<BS: cipher::crypto_common::BlockSizes> BlockSizeUser for BackendRun<BS> {
+    type BlockSize = BS;
+}
+
+macro_rules! backend_run {
+    ($Closure:ident, $Backend:ident, $block_ip:ident, $par_ip:ident, $tail_ip:ident, $par:ident, $tail:ident) => {
+        impl<BS: cipher::crypto_common::BlockSizes> $Closure for BackendRun<BS> {
+            fn call<B: $Backend<BlockSize = BS>>(self, be: &B) {
+                unsafe {
+                    let par = B::ParBlocksSize::USIZE.max(1);
+                    let n = self.n;
+                    let ib = self.inp as *const cipher::Block<B>;
+                    let ob = self.outp as *mut cipher::Block<B>;
+                    let full = n / par;
+                    let rest = n - full * par;
+                    match self.mode {
+                        Shape::BackendBlockInplace => {
+                            for i in 0..n {
+                                be.$block_ip(&mut *ob.add(i));
+                            }
+                        }
+                        Shape::BackendBlocksInplace => {
+                            for c in 0..full {
+                                be.$par_ip(&mut *(ob.add(c * par) as *mut cipher::ParBlocks<B>));
+                            }
+                            if rest > 0 {
+                                be.$tail_ip(slice::from_raw_parts_mut(ob.add(full * par), rest));
+                            }
+                        }
+                        _ => {
+                            for c in 0..full {
+                                be.$par(InOut::from_raw(ib.add(c * par) as *const cipher::ParBlocks<B>, ob.add(c * par) as *mut cipher::ParBlocks<B>));
+                            }
+                            if rest > 0 {
+                                be.$tail(InOutBuf::from_raw(ib.add(full * par), ob.add(full * par), rest));
+                            }
+                        }
+                    }
+                }
+            }
+        }
+    };
+}
+backend_run!(BlockCipherEncClosure, BlockCipherEncBackend, encrypt_block_inplace, encrypt_par_blocks_inplace, encrypt_tail_blocks_inplace, encrypt_par_blocks, encrypt_tail_blocks);
+backend_run!(BlockCipherDecClosure, BlockCipherDecBackend, decrypt_block_inplace, decrypt_par_blocks_inplace, decrypt_tail_blocks_inplace, decrypt_par_blocks, decrypt_tail_blocks);
 
 struct ParProbe<'a, BS>(&'a mut usize, PhantomData<BS>);
 
@@ -387,6 +478,7 @@ fn base<T: KeyInit + BlockSizeUser>(
         clone: None,
         clone_from: None,
         drop: g_drop::<T>,
+        box_drop: g_box_drop::<T>,
         enc: None,
         dec: None,
         enc_par: None,
@@ -627,6 +719,7 @@ fn raw_info<T: RawTf>(type_name: &'static str, family: &'static str, variant: &'
         clone: Some(g_clone::<T>),
         clone_from: Some(g_clone_from::<T>),
         drop: g_drop::<T>,
+        box_drop: g_box_drop::<T>,
         enc: Some(raw_call::<T, false>),
         dec: Some(raw_call::<T, true>),
         enc_par: Some(raw_par),
